@@ -264,6 +264,12 @@ package metrics
 //@   ensures implies(result, uf("safeName", bool, key))
 //@   note string-level meaning of the validator ("a single file name: not empty, not . or .., at most 255 bytes, no / and no NUL") is ASSUMED
 //@ end
+// the validator's string-level meaning, decided by a bounded stand-in only
+//@ func IsValidTagKey @strings
+//@   props C19
+//@   note no proof obligations: this view only attaches the bounded stand-in (the primary contract above is the ASSUMED meaning the C19 proofs use)
+//@   bounded metrics/validtagkey_test.go Test_Bounded_IsValidTagKey every string of up to 4 bytes over { / NUL . a - _ }, alone and at the start / middle / end of a longer plain key, and keys around the 255-byte limit (about 6200 keys): accepted exactly when not empty, not . or .., within the limit and free of / and NUL at every position
+//@ end
 //@ func (*TagsHolder).GetEntries
 //@   props C19
 //@   requires th != nil && th.idx >= 0 && th.idx <= len(th.entries)
